@@ -2,7 +2,7 @@
      H <hex> | F <testdata name> <off:val,...|-> | SIZES
    first token of argv (optional): "unfixed" runs the model of the code before the fix commits.
    output:  R=..;SI=..;TL=..;...;EXP=..;led=<largest ledger entry>   or "?" (case not predicted) *)
-let tags = [| "R"; "SI"; "TL"; "ML"; "UM"; "MEM"; "M64"; "MI"; "TI"; "TN"; "HD"; "EX"; "EXP"; "EXC"; "TLP"; "MS"; "LC"; "LS"; "LR"; "LE"; "LL"; "MA"; "CP"; "SIS"; "AS"; "BP"; "MB"; "SE"; "MC" |]
+let tags = [| "R"; "SI"; "TL"; "ML"; "UM"; "MEM"; "M64"; "MI"; "TI"; "TN"; "HD"; "EX"; "EXP"; "EXC"; "TLP"; "MS"; "LC"; "LS"; "LR"; "LE"; "LL"; "MA"; "CP"; "SIS"; "AS"; "BP"; "MB"; "SE"; "MC"; "RM"; "RI"; "CA"; "TE" |]
 let kinds = [| "none"; "x86"; "amd64"; "ppc"; "ppc64"; "sparc"; "arm"; "arm64"; "arm64old"; "mips" |]
 let err_names = [| "MissingHeader"; "HeaderMismatch"; "VersionMismatch"; "MissingDirectory"; "StreamReadFailure";
                    "StreamSizeMismatch"; "StreamNotFound"; "ModuleReadFailure"; "MemoryReadFailure"; "DataError";
@@ -49,11 +49,11 @@ let () =
               tags.(int_of_z t) ^ "=" ^
               (match f with
                | FOk [n; k] when int_of_z t = 11 -> "ok:" ^ string_of_z n ^ ":" ^ kinds.(int_of_z k)
-               | FOk vs when int_of_z t = 21 -> "ok:" ^ String.concat "" (List.map string_of_z vs)
+               | FOk vs when int_of_z t = 21 || int_of_z t = 29 || int_of_z t = 30 || int_of_z t = 32 -> "ok:" ^ String.concat "" (List.map string_of_z vs)
                | FOk vs -> String.concat ":" ("ok" :: List.map string_of_z vs)
                | FErr e -> "err:" ^ err_names.(int_of_z (err_code e))
                | FPan t -> "!P(" ^ string_of_z t ^ ")"
-               | FNoFuel -> "!NOFUEL")) (o_fields o) in
+               | FNoFuel -> "!NOFUEL")) (o_fields o @ run_queries Debug (bytes_of_string data)) in
             let led = List.fold_left (fun a x -> let x = z_to_zt x in if ZA.compare x a > 0 then x else a) ZA.zero (o_ledger o) in
             print_endline (String.concat ";" fs ^ ";led=" ^ ZA.to_string led)
           end
